@@ -91,3 +91,51 @@ def rand_session(rng, s=1, steps=12, logins=LOGINS, allow_end=True):
         elif r < 0.8:
             st.append(["vanish", s])
     return st
+
+
+# ---------------------------------------------------------------------------
+# scripted corpus: every verb and transfer kind (one session, user given)
+
+USER_ENV = {
+    # user -> (login steps, an existing file, an existing dir, a fresh name, payload)
+    "u1": (lambda s: [["send", s, "USER u1"], ["send", s, "PASS pw1"]], "f", "d", "n1"),
+    "u2": (lambda s: [["send", s, "USER u2"]], "f", ".", "n2"),
+    "anon": (lambda s: [["send", s, "USER anonymous"]], "pub", ".", "n3"),
+}
+
+
+def corpus(s=1, user="u1"):
+    lg, f, d, n = USER_ENV[user]
+    L = lambda: [["connect", s]] + lg(s)
+    c = {}
+    c["nav"] = L() + [["send", s, x] for x in (
+        "PWD", "CWD " + d, "PWD", "CDUP", "MLST " + f, "MKD " + n, "CWD " + n, "CDUP", "RMD " + n, "SYST", "TYPE I",
+        "RNFR " + f, "RNTO " + n, "RNFR " + n, "RNTO " + f, "QUIT")]
+    c["retr_pre"] = L() + transfer(s, "RETR", f, connect="before") + [["send", s, "QUIT"]]
+    c["retr_post"] = L() + transfer(s, "RETR", f, pasv="EPSV", connect="after") + [["send", s, "QUIT"]]
+    c["retr_rest"] = L() + transfer(s, "RETR", f, connect="after", rest="2") + transfer(s, "RETR", f) + [["send", s, "QUIT"]]
+    c["stor_pre"] = L() + transfer(s, "STOR", n, connect="before", data=[1, 2, 3, 4, 5], chunks=2) + [["send", s, "DELE " + n], ["send", s, "QUIT"]]
+    c["stor_post"] = L() + transfer(s, "STOR", n, pasv="EPSV", connect="after", data=[7, 8, 9], chunks=3) + [["send", s, "MLST " + n], ["send", s, "DELE " + n], ["send", s, "QUIT"]]
+    c["appe"] = L() + transfer(s, "APPE", n, connect="after", data=[1, 2]) + transfer(s, "APPE", n, connect="before", data=[3]) + [["send", s, "DELE " + n], ["send", s, "QUIT"]]
+    c["stor_rest"] = L() + transfer(s, "STOR", n, connect="after", data=[1, 2, 3, 4]) + transfer(s, "STOR", n, connect="after", data=[9, 9], rest="1") + [["send", s, "DELE " + n], ["send", s, "QUIT"]]
+    c["list"] = L() + transfer(s, "LIST", "", connect="after") + transfer(s, "MLSD", d, pasv="EPSV", connect="before") + [["send", s, "QUIT"]]
+    c["nodata"] = L() + transfer(s, "RETR", f, connect="never") + [["send", s, "PWD"], ["send", s, "QUIT"]]
+    c["relogin"] = L() + [["send", s, "PASV"], ["send", s, "RNFR " + f]] + lg(s) + [["send", s, "RNTO zz"], ["send", s, "PWD"], ["send", s, "QUIT"]]
+    c["abort"] = L() + [["send", s, "PASV"], ["send", s, "STOR " + n], ["dconnect", s], ["dsend", s, [1, 2, 3]], ["send", s, "ABOR"],
+                        ["send", s, "DELE " + n], ["send", s, "QUIT"]]
+    c["refused"] = L() + [["send", s, x] for x in ("CWD nope", "RMD " + f, "DELE " + d, "RETR " + f, "RNTO x", "MKD " + f, "FOO", "REST x", "EPSV 1")]
+    return c
+
+
+def cuts(script, s, how=("vanish",)):
+    """Every prefix of the script followed by an abrupt end."""
+    out = []
+    for k in range(1, len(script) + 1):
+        for h in how:
+            end = [["vanish", s]] if h == "vanish" else [["vanish", s, "all"]] if h == "vanishall" else [["srvclose"]]
+            out.append(script[:k] + end)
+    return out
+
+
+def count_backend_calls(result):
+    return sum(1 for e in result["trace"] if e["ev"] in ("FsQuery", "FsMut", "FsFile"))
